@@ -9,6 +9,7 @@ import (
 	"bytes"
 	"context"
 	"encoding/json"
+	"errors"
 	"flag"
 	"fmt"
 	"os"
@@ -109,6 +110,9 @@ func play(sc Script, out *bufio.Writer) {
 		case "GoCtx":
 			slots[st.J] = slot{kind: "C", c: src.c.Ctx(context.WithValue(context.Background(), prog.CtxKey{}, st.A))}
 			destOf[st.J] = destOf[st.I]
+		case "Stack":
+			slots[st.J] = slot{kind: "C", c: src.c.Stack()}
+			destOf[st.J] = destOf[st.I]
 		case "CtxReset":
 			slots[st.J] = slot{kind: "C", c: src.c.Reset()}
 			destOf[st.J] = destOf[st.I]
@@ -182,13 +186,51 @@ func play(sc Script, out *bufio.Writer) {
 			rec["nested"] = append([]int{}, nested...)
 			rec["debug"] = wroteDebug
 			rec["info"] = wroteInfo
+			// the stack flag: an error logged through this logger carries a "stack" member iff its own derivation called
+			// Stack(); a Dict() built BEFORE the event is opened, or inside the call chain, is a temporary no logger
+			// created: it never carries one, whatever the pooled object did in its previous life
+			stackTop, stackNested := false, false
+			for pass := 0; pass < 2; pass++ {
+				for _, d := range dests {
+					d.lines = nil
+				}
+				if pass == 0 {
+					pre := zerolog.Dict().Err(errProbe)
+					l.Error().Err(errProbe).Dict("sd", pre).Msg("s")
+				} else {
+					l.Error().Dict("sd", zerolog.Dict().Err(errProbe)).Err(errProbe).Msg("s")
+				}
+				for _, d := range dests {
+					for _, ln := range d.lines {
+						var m map[string]interface{}
+						if json.Unmarshal(bytes.TrimSpace(ln), &m) != nil {
+							continue
+						}
+						if _, ok := m["stack"]; ok {
+							stackTop = true
+						} else if pass == 0 {
+							// both passes must agree with the flag; a missing stack in either shows as false below
+						}
+						if sd, ok := m["sd"].(map[string]interface{}); ok {
+							if _, ok := sd["stack"]; ok {
+								stackNested = true
+							}
+						}
+					}
+				}
+			}
+			rec["stacktop"] = stackTop
+			rec["stacknested"] = stackNested
 			rec["valid"] = json.Valid(bytes.TrimSuffix(line, []byte("\n")))
 		}
 		emit(rec)
 	}
 }
 
+var errProbe = errors.New("probe")
+
 func main() {
+	zerolog.ErrorStackMarshaler = func(err error) interface{} { return "stk" }
 	in := flag.String("scripts", "", "")
 	outp := flag.String("out", "hist.ndjson", "")
 	flag.Parse()
